@@ -51,6 +51,30 @@ def mk_dataset(rng, kind=None, maxn=40):
     return info
 
 
+def edge_window(rng, ds):
+    """a global Q window whose bounds coincide with *offset* Q values of one dataset (the bin the user reads off the shifted curve).
+    In floating point x + offset is often one ulp off the 0.01 lattice value (0.4 + 0.2 = 0.6000000000000001): the point is on the
+    edge, hence inside.  Returns (qmin, qmax) with either possibly None, or None when no dataset qualifies."""
+    d = ds[int(rng.integers(0, len(ds)))]
+    if not d.get("X", {}).get("Offset"):
+        d["X"] = {"Offset": float(rng.choice([0.2, -0.1, 0.1, 0.3, 0.7, -0.3]))}
+    off = d["X"]["Offset"]
+    x = np.around(np.array(d["x"], dtype=float), 2)
+    lo, hi = d.get("Qmin", x.min()), d.get("Qmax", x.max())
+    inside = np.sort(x[(x >= lo) & (x <= hi)])
+    if len(inside) < 3:
+        return None
+    lat = np.around(inside + off, 2)
+    below = [k for k in range(len(inside) // 2 + 1) if inside[k] + off < lat[k]]          # float sum just below the lattice value
+    above = [k for k in range(len(inside) // 2, len(inside)) if inside[k] + off > lat[k]]  # just above
+    kmin = int(rng.choice(below)) if below and rng.random() < 0.8 else int(rng.integers(0, len(inside) // 2 + 1))
+    kmax = int(rng.choice(above)) if above and rng.random() < 0.8 else int(rng.integers(len(inside) // 2, len(inside)))
+    r = rng.random()
+    qmin = float(lat[kmin]) if r < 0.7 else None
+    qmax = float(lat[kmax]) if r > 0.3 else None
+    return qmin, qmax
+
+
 def to_info(d):
     """the dict handed to StoG.add_dataset (fresh arrays every time: add_dataset stores into the dict)"""
     info = {k: copy.deepcopy(v) for k, v in d.items() if k not in ("x", "y", "dy", "unsorted")}
